@@ -1027,18 +1027,31 @@ void mmd_export_token_html(DString * out, const char * source, token * t, scratc
 				break;
 			}
 
+			// Locate the TOC token -- a list marker precedes its line when the TOC opens a list item
+			temp_token = t->child;
+
+			if (temp_token && (temp_token->type != LINE_TOC)) {
+				temp_token = temp_token->next;
+			}
+
+			temp_token = temp_token ? temp_token->child : NULL;
+
+			if (temp_token == NULL) {
+				break;
+			}
+
 			pad(out, 2, scratch);
 			print_const("<div class=\"TOC\">\n");
 
 			// Define range
-			if (t->child->child->type == TOC) {
+			if (temp_token->type == TOC) {
 				temp_short = 1;
 				temp_short2 = 6;
 			} else {
-				temp_short = source[t->start + 6] - '0';
+				temp_short = source[temp_token->start + 6] - '0';
 
-				if (t->child->child->type == TOC_RANGE) {
-					temp_short2 = source[t->start + 8] - '0';
+				if (temp_token->type == TOC_RANGE) {
+					temp_short2 = source[temp_token->start + 8] - '0';
 				} else {
 					temp_short2 = temp_short;
 				}
